@@ -1,6 +1,6 @@
 (* C13 property theorems ONLY (each closed by an already proved lemma) + assumptions. *)
 From Coq Require Import List ZArith Reals Lra Lia Bool Permutation.
-From RV Require Import Common.Num Common.RealNum C13.Model C13.Run C13.Fixup C13.Resolve C13.Search.
+From RV Require Import Common.Num Common.RealNum C13.Model C13.LoopNA C13.Run C13.Fixup C13.Resolve C13.Search.
 Import ListNotations.
 
 (* ---- the resolve loop of reb_collision_search, for EVERY pending array (hence every processing order produced by
@@ -12,34 +12,39 @@ Context {P St : Type} (pid : P -> Z) (isflag : P -> bool) (flag : P -> P)
 Hypothesis flag_pid : forall p, pid (flag p) = pid p.
 Hypothesis flag_set : forall p, isflag (flag p) = true.
 Hypothesis res_frame : forall s ps e s' ps' o, res s ps e = (s', ps', o) -> view pid isflag ps' = view pid isflag ps.
-Variables (tree keep : bool) (ps : list P) (pend : list entry) (s s' : St) (psf : list P) (log : list event).
+Variables (tree keep : bool) (nact : Z) (ps : list P) (pend : list entry) (s s' : St) (psf : list P) (naf : Z) (log : list event).
 Hypothesis not_both : tree && keep = false.
+(* removing a particle never moves a second one: keep_sorted, or a tree, or N_active <= 0 (-1 = all active, the default).
+   Without it the statement is false of the code: C13_fixup_nactive_refuted below. *)
+Hypothesis nact_ok : na_ok tree keep nact.
 Hypothesis ids_unique : NoDup (idsV (view pid isflag ps)).
 Hypothesis pend_valid : Forall (live_entry (view pid isflag ps)) pend.
-Hypothesis run : resolve_loop pid flag res tree keep (fun e => e) s ps pend = (s', psf, log).
+Hypothesis run : resolve_loop pid flag res tree keep (fun e => e) nact s ps pend = (s', psf, naf, log).
+Let run_na := loop_is_na pid flag res tree keep _ _ _ _ _ _ _ _ _ nact_ok run.
 
 (* the index juggling (tombstones, shift-down / moved-last remapping, both outcome bits, deferred tree removal)
    makes exactly the calls of the identity-level loop: walk the identity pairs in order, skip a pair iff one of its
    ids has been removed, otherwise call resolve with these two ids and remove what the outcome says *)
 Theorem C13_fixup_refines :
   replay (map (den0 (view pid isflag ps)) pend) (map ev_id log) [].
-Proof. exact (proj1 (loop_refines_top pid isflag flag res flag_pid flag_set res_frame _ _ _ _ _ _ _ _ not_both ids_unique pend_valid run)). Qed.
+Proof. exact (proj1 (loop_refines_top pid isflag flag res flag_pid flag_set res_frame _ _ _ _ _ _ _ _ not_both ids_unique pend_valid run_na)). Qed.
 
 (* surviving ids + removed ids = initial ids as multisets, no id twice *)
 Theorem C13_no_loss_no_dup :
   NoDup (idsV (view pid isflag psf)) /\ NoDup (racc (map ev_id log) []) /\
   Permutation (liveids (view pid isflag psf) ++ racc (map ev_id log) []) (liveids (view pid isflag ps)).
-Proof. exact (proj2 (proj2 (loop_refines_top pid isflag flag res flag_pid flag_set res_frame _ _ _ _ _ _ _ _ not_both ids_unique pend_valid run))). Qed.
+Proof. exact (proj2 (proj2 (loop_refines_top pid isflag flag res flag_pid flag_set res_frame _ _ _ _ _ _ _ _ not_both ids_unique pend_valid run_na))). Qed.
 
 (* no particle is handed to resolve after it was removed (so none is merged away twice); the two ids of a call differ *)
 Theorem C13_merged_once : never_after (map ev_id log) [].
-Proof. exact (proj1 (proj2 (loop_refines_top pid isflag flag res flag_pid flag_set res_frame _ _ _ _ _ _ _ _ not_both ids_unique pend_valid run))). Qed.
+Proof. exact (proj1 (proj2 (loop_refines_top pid isflag flag res flag_pid flag_set res_frame _ _ _ _ _ _ _ _ not_both ids_unique pend_valid run_na))). Qed.
 End Loop.
 Print Assumptions C13_fixup_refines.
 Print Assumptions C13_no_loss_no_dup.
 Print Assumptions C13_merged_once.
 
-(* one removal: every other particle is found at the remapped index, the live ids lose exactly the removed one *)
+(* one removal (rmV = the model's removal when no second particle is moved, LoopNA.remove_particle_is_na):
+   every other particle is found at the remapped index, the live ids lose exactly the removed one *)
 Theorem C13_remove_particle_remap : forall tree keep v k a,
   tree && keep = false -> NoDup (idsV v) -> zth v k = Some (a, false) ->
   exists v', rmV tree keep v k = (v', true) /\ NoDup (idsV v') /\
@@ -161,14 +166,15 @@ Proof. exact @line_enumerates. Qed.
 Print Assumptions C13_line_enumerates.
 
 (* ---- merge + the removal the loop performs: sums of m, m v, m x over the WHOLE array are unchanged, N drops by one *)
-Theorem C13_merge_conserves_total : forall (flag : particle R -> particle R) t cb ps p1 p2 a b keep,
+Theorem C13_merge_conserves_total : forall (flag : particle R -> particle R) t cb ps p1 p2 a b keep nact,
+  na_ok false keep nact ->
   zth ps p1 = Some a -> zth ps p2 = Some b -> p1 <> p2 -> plc a <> t -> plc b <> t -> pm a + pm b <> 0 ->
-  exists ps' ps'',
+  exists ps' ps'' nact',
     fst (merge RNum t cb ps p1 p2) = ps' /\
-    remove_particle flag false keep ps' (gone_ix p1 p2) = (ps'', true) /\
+    remove_particle flag false keep nact ps' (gone_ix p1 p2) = (ps'', nact', true) /\
     S (length ps'') = length ps /\
     Forall (fun f => tot f ps'' = tot f ps) conserved.
-Proof. exact merge_total. Qed.
+Proof. exact merge_total_model. Qed.
 Print Assumptions C13_merge_conserves_total.
 
 (* ---- tree-walk pruning (TREE: D1 = D2 = 0; LINETREE: D1 = |dt||v1|, D2 = maxdrift): a pruned cell contains no
@@ -209,6 +215,19 @@ Theorem C13_max_radius_upper_bound :
   (forall st l x y l', radii_ok st l -> Permutation l (x :: y :: l') -> x <= snd st \/ y <= snd st).
 Proof. exact (conj radii_init (conj radii_add (conj radii_remove radii_pair))). Qed.
 Print Assumptions C13_max_radius_upper_bound.
-(* ... but NOT under merges: reb_collision_resolve_merge enlarges a radius without touching max_radius0/1 *)
-Theorem C13_max_radius_merge_refuted : exists st l, radii_ok st l /\ forall c, c * c * c = 2 -> ~ radii_ok st [c; c].
-Proof. exact radii_merge_breaks. Qed.
+(* ... and under merges as coded (reb_collision_resolve_merge applies the same rule to the merged radius): for any
+   merged radius c, with the removed partner gone or still sitting flagged in the array (tree) *)
+Theorem C13_max_radius_merge_preserved : forall st l ri rj rest c, radii_ok st l -> Permutation l (ri :: rj :: rest) ->
+  radii_ok (add_radius st c) (c :: rest) /\ radii_ok (add_radius st c) (c :: rj :: rest).
+Proof. exact radii_merge. Qed.
+Print Assumptions C13_max_radius_merge_preserved.
+
+(* ---- N_active > 0, no keep_sorted, no tree: reb_simulation_remove_particle of an active particle moves TWO particles
+   (last active into the hole, last particle into its slot) but the loop's fix-up only renumbers the last one:
+   the second pending entry (2,3) = ids (1002,1003) is handed to resolve as ids (1004,1003) *)
+Theorem C13_fixup_nactive_refuted :
+  let ids := [1000; 1001; 1002; 1003; 1004]%Z in
+  let pend := [(1, 0, 13); (2, 3, 13)]%Z in
+  map (den0 (map (fun i => (i, false)) ids)) pend = [(1001, 1000, 13); (1002, 1003, 13)]%Z /\
+  map ev_id (fst (fst (loop_ids false false 3 ids pend [1; 2]%Z))) = [(1001, 1000, 13, 1); (1004, 1003, 13, 2)]%Z.
+Proof. split; vm_compute; reflexivity. Qed.
